@@ -1210,7 +1210,7 @@ func main() {
 	run.Coverage["evaluations"] = tot.Cases
 	run.Coverage["deliveries"] = tot.Deliveries
 	run.Coverage["distinct_nontrivial"] = tot.NonTrivial
-	run.Coverage["rule"] = "per message type (replicate-sync, forward-apply, cache-invalidate, edge-sync-file, edge-sync-reconcile): fresh real handler + nonce cache built by the call site's own expression at virtual time T0; a signed message (timestamp = receiver second + offset) is delivered at T0+first+phase and the byte-identical message again `delay` later, optionally with unrelated valid traffic every 61 s in between (eviction sweeps). Grid = offsets x delays x recv-phase {0,0.5s} x delay sub-second {0,+0.999999999s} x first-receipt {0,61s} x ticks {off,on} (quick: edge values of tol/ttl; thorough adds every whole second of offset in [-tol-2,tol+2] x every whole second of delay in [0,max(2tol,ttl)+3]). Every tuple is distinct by construction; a case counts as non-trivial when the original was accepted and the replay arrived while its timestamp was still inside the window (only the nonce cache can stop it). HISTORIES (history_cases of the evaluations): every sequence of 2..4 deliveries on ONE handler + cache with exactly one first delivery M (timestamp = receiver second + offset), a final byte-identical replay R after it and unrelated authentic deliveries in the other positions, each U (same sender, fresh nonce) or V (another node id, the SAME nonce), every delivery preceded by a clock advance from the gap grid {0, 1s, I-1s, I, I+1s, ttl-I-1s, ttl-I, ttl-I+1s, ttl-1s, ttl, ttl+1s} (I = every time.Duration constant of nonce_cache.go as compiled, i.e. the sweep interval; history_gap_grid_s lists the values), the advances between M and R summing to at most 2*tol+2s (beyond that R is outside the window for every offset; the time grid covers that side), x the 9 edge offsets. quick: shapes MR, MXR, XMR, MXXR with the time from construction to the first delivery in {0, I+1s}; thorough adds XMXR, XXMR and construction gap I. Any accepted R after an accepted M is a violation; U and V are expected to be accepted (counted in unrelated_deliveries, a rejection is not a violation of this property)."
+	run.Coverage["rule"] = "per message type (replicate-sync, forward-apply, cache-invalidate, edge-sync-file, edge-sync-reconcile): fresh real handler + nonce cache built by the call site's own expression at virtual time T0; a signed message (timestamp = receiver second + offset) is delivered at T0+first+phase and the byte-identical message again `delay` later, optionally with unrelated valid traffic every 61 s in between (eviction sweeps). Grid = offsets x delays x recv-phase {0,0.5s} x delay sub-second {0,+0.999999999s} x first-receipt {0,61s} x ticks {off,on} (quick: edge values of tol/ttl; thorough adds every whole second of offset in [-tol-2,tol+2] x every whole second of delay in [0,max(2tol,ttl)+3]). Every tuple is distinct by construction; a case counts as non-trivial when the original was accepted and the replay arrived while its timestamp was still inside the window (only the nonce cache can stop it). HISTORIES (history_cases of the evaluations): every sequence of 2..4 deliveries on ONE handler + cache with exactly one first delivery M (timestamp = receiver second + offset), a final byte-identical replay R after it and unrelated authentic deliveries in the other positions, each U (same sender, fresh nonce) or V (another node id, the SAME nonce), every delivery preceded by a clock advance from the gap grid {0, 1s, I-1s, I, I+1s, ttl-I-1s, ttl-I, ttl-I+1s, ttl-1s, ttl, ttl+1s} (I = every time.Duration constant of nonce_cache.go as compiled, i.e. the sweep interval; history_gap_grid_s lists the values), the advances between M and R summing to at most 2*tol+2s (beyond that R is outside the window for every offset; the time grid covers that side), x the 9 edge offsets. quick: shapes MR, MXR, XMR with the time from construction to the first delivery in {0, I+1s} and MXXR starting at construction time; thorough adds XMXR, XXMR and construction gaps {0, I, I+1s} for every shape. Any accepted R after an accepted M is a violation; U and V are expected to be accepted (counted in unrelated_deliveries, a rejection is not a violation of this property)."
 	run.Coverage["history_cases"] = tot.HistCases
 	run.Coverage["cases_retried_after_harness_error"] = tot.Retried
 	run.Coverage["history_cases_by_shape"] = tot.HistByLen
